@@ -583,6 +583,26 @@ func genC02(g *h.G) {
 			g.Emit("go.obtained", ts)
 		}
 	}
+	// Merkle updates over two pruned versions of a tree (the state_update of a block): pruned branches on both sides
+	for i := 0; i < g.Scale(300, 6000); i++ {
+		t, na, nb := g.MerkleUpdateTable()
+		if !h.WFExotic(t) {
+			panic("generator produced a Merkle update violating WFExotic: " + h.TableString(t))
+		}
+		if na > 0 && nb > 0 {
+			g.Count("merkle_update_pruned_on_both_sides")
+		} else {
+			g.Count("merkle_update_pruned_on_one_side_or_none")
+		}
+		emitTable(g, t, "class_merkle_update")
+		if specCost(t) <= 2500 {
+			g.Emit("spec.levels", h.TableString(t))
+		}
+		if i%4 == 0 {
+			g.Emit("go.obtained", h.TableString(t))
+			g.Emit("go.cached", h.TableString(t), strconv.Itoa(g.Rng.Intn(1<<30)))
+		}
+	}
 	// every bit length 0..1023 (all numbers of trailing bits at every length), as leaf and with children
 	for bl := 0; bl <= 1023; bl++ {
 		leaf := h.Row{BitLen: bl, Data: g.RandData(bl)}
